@@ -100,12 +100,49 @@ Definition drop (s : smstate) (o : obj) : res smstate :=
 Definition reduce_obj (o : obj) : block * Z := (o_block o, o_size o).
 Definition rebuild_obj (st : block * Z) : obj := mk_obj (fst st) (snd st).
 
-(* a lock-wrapped object: synchronized(obj, lock, ctx) keeps the lock it is given (a lock is named
-   by the semaphore behind it); a wrapper pickles as (synchronized, (obj, lock)) *)
+Definition none_obj_w : obj := mk_obj (-1, -1, -1) 0.
+
+(* a lock-wrapped object.  A lock is named by the semaphore behind it.  The `lock` argument of
+   synchronized(obj, lock, ctx) / SynchronizedBase.__init__ is None or an object with a truth value:
+
+       if lock:  self._lock = lock
+       else:     ctx = ctx or get_context(force=True); self._lock = ctx.RLock()
+
+   i.e. the wrapper keeps the lock it is given only when bool(lock) is true; otherwise it makes a fresh
+   recursive lock of its own (`fresh` = the semaphore that ctx.RLock() creates: an oracle).  WHICH test
+   guards the assignment is regenerated from the code (Gen/G_sharedmem.wrapper_lock_test). *)
+Inductive lock_test :=
+| LockTruthy       (* if lock: *)
+| LockNotNone      (* if lock is not None: *)
+| LockAlways.      (* unconditional self._lock = lock *)
+Definition lockarg := option (Z * bool).     (* None, or Some (semaphore, bool(lock)) *)
+
 Record wrapper := mk_wrapper { wr_obj : obj; wr_lock : Z }.
-Definition synchronized_w (o : obj) (lock : Z) : wrapper := mk_wrapper o lock.
+Definition keeps_lock (t : lock_test) (lock : lockarg) : option Z :=
+  match t, lock with
+  | LockTruthy, Some (l, true) => Some l
+  | LockTruthy, _ => None
+  | (LockNotNone | LockAlways), Some (l, _) => Some l
+  | (LockNotNone | LockAlways), None => None
+  end.
+Definition synchronized_gen (t : lock_test) (o : obj) (lock : lockarg) (fresh : Z) : wrapper :=
+  match keeps_lock t lock with Some l => mk_wrapper o l | None => mk_wrapper o fresh end.
+(* the code's test *)
+Definition wrapper_lock_test : lock_test := LockTruthy.
+Definition synchronized_w := synchronized_gen wrapper_lock_test.
+(* a wrapper pickles as (synchronized, (obj, self._lock)); self._lock is a lock that passed the test above
+   or a ctx.RLock() -- billiard's lock classes define neither __bool__ nor __len__, so it is truthy
+   (checked by the generator) and the rebuilt wrapper keeps it *)
 Definition reduce_wrapper (w : wrapper) : (block * Z) * Z := (reduce_obj (wr_obj w), wr_lock w).
-Definition rebuild_wrapper (st : (block * Z) * Z) : wrapper := synchronized_w (rebuild_obj (fst st)) (snd st).
+Definition rebuild_wrapper (st : (block * Z) * Z) (fresh : Z) : wrapper :=
+  synchronized_w (rebuild_obj (fst st)) (Some (snd st, true)) fresh.
+(* correspondence of the lock handed to Value/Array/synchronized: `given` = None for lock=None, else the
+   truth value of the lock object; `same` = what the real wrapper did (get_lock() is the given object).
+   0 = the model predicts it *)
+Definition check_lockarg (c : option bool * bool) : Z :=
+  let '(given, same) := c in
+  let lock := match given with Some tv => Some (1, tv) | None => None end in
+  if Bool.eqb same (wr_lock (synchronized_w none_obj_w lock 2) =? 1) then 0 else 1.
 (* number of wrapper-returning branches of synchronized() *)
 Definition synchronized_branches : nat := 4.
 
@@ -179,6 +216,14 @@ Fixpoint wrun (prog : list instr) (w : world) (sched : list nat) : world :=
   | i :: r => match wstep prog w i with Some w' => wrun prog w' r | None => wrun prog w r end
   end.
 
+(* the same with a program per thread (updaters that do not all follow the same discipline) *)
+Definition wstep_h (progs : nat -> list instr) (w : world) (i : nat) : option world := wstep (progs i) w i.
+Fixpoint wrun_h (progs : nat -> list instr) (w : world) (sched : list nat) : world :=
+  match sched with
+  | [] => w
+  | i :: r => match wstep_h progs w i with Some w' => wrun_h progs w' r | None => wrun_h progs w r end
+  end.
+
 Definition world_init (v0 : Z) (nthreads k : nat) : world :=
   mk_world None v0 (repeat (mk_thread 0 0 k) nthreads).
 Definition all_done (w : world) : bool := forallb (fun t => Nat.eqb (t_left t) 0) (w_threads w).
@@ -208,6 +253,13 @@ Fixpoint live_reads (m : mem) (objs : list (option obj)) (i : nat) : list (nat *
 Definition prog_of_kind (kind : Z) : list ceffect :=
   if kind =? 0 then rawvalue_prog else if kind =? 1 then rawarray_n_prog else rawarray_init_prog.
 
+(* rebuild_ctype(type_, wrapper, length) attaches the SAME wrapper object to the new ctypes object
+   (`obj._wrapper = wrapper`): the wrapper -- and with it the block, freed by the wrapper's finaliser --
+   lives as long as any of the objects built over it.  In the object table the objects over one wrapper
+   are those with the same block. *)
+Definition shares_wrapper (objs : list (option obj)) (ob : obj) : bool :=
+  existsb (fun x => match x with Some o' => block_eqb (o_block o') (o_block ob) | None => false end) objs.
+
 Definition sstep (pg : Z) (s : smstate) (objs : list (option obj)) (o : sop)
   : res (smstate * list (option obj) * (block * Z)) :=
   match o with
@@ -216,7 +268,10 @@ Definition sstep (pg : Z) (s : smstate) (objs : list (option obj)) (o : sop)
       OK (s', objs ++ [Some ob], (o_block ob, o_size ob))
   | SDrop k =>
       match nth k objs None with
-      | Some ob => do s' <- drop s ob; OK (s', set_nth objs k None, (none_block, 0))
+      | Some ob =>
+          let objs' := set_nth objs k None in
+          if shares_wrapper objs' ob then OK (s, objs', (none_block, 0))
+          else do s' <- drop s ob; OK (s', objs', (none_block, 0))
       | None => Err KeyError
       end
   | SWrite k off bs =>
@@ -235,9 +290,8 @@ Definition sstep (pg : Z) (s : smstate) (objs : list (option obj)) (o : sop)
       end
   end.
 
-(* objects created by SRebuild share their block with the original: dropping is only done
-   on originals whose aliases are dropped first by the generator (the driver keeps the
-   wrapper alive as long as any alias exists) *)
+(* objects created by SRebuild share their wrapper (hence their block) with the original: dropping
+   one of them frees the block only when it is the last one (sstep, SDrop) *)
 Fixpoint srun (pg : Z) (s : smstate) (objs : list (option obj)) (ops : list sop) : list sobs :=
   match ops with
   | [] => []
